@@ -23,8 +23,9 @@ import os
 import re
 
 import cfront
+import csem as cs
 from cfront import ExtractFail, Cpp, Parser, find_functions, lex, Tok
-from cfront import Var, IntLit, Bin, Un, Index, Call, AssignE, Member
+from cfront import Var, IntLit, Bin, Un, Index, Call, AssignE, Member, Cast, AddrOf
 
 GEN_NAME = "Files"
 
@@ -306,6 +307,318 @@ def glob_tokens(pat, where):
     return toks
 
 
+# ---- cleanImplementationFiles, read SEMANTICALLY (csem): the function is executed symbolically, every variable is bound by
+# ---- the ROLE its value plays (the glob result, the entry name, its length, a constant index, the scan flag), so local
+# ---- names, const temporaries, switch / if-else forms, negated conditions, for / while and operand order are all free.
+
+CLEAN_TYPEDEFS = {"glob_t": "u64", "size_t": "u64", "bool": "u8", "FILE": "u64", "HANDLE": "u64"}
+
+
+class _Clean:
+    def __init__(self, where, consts, funcs):
+        self.where, self.consts, self.funcs = where, consts, funcs
+        self.steps = []
+        self.pending = {}          # flag variable -> scan step not tested yet
+        self.action = None
+        self.flag_carried = None   # None: the scan flag is re-initialised for every entry; else its declaration's value
+        self.flag_seen = False
+
+    def fail(self, why):
+        raise ExtractFail(self.where, why)
+
+    # -- symbolic values: ('entry',) ('len',) ('int', k) ('char', idx) ('scanchar',) ('carried', init|None) ('scan', step) ('removed',)
+    def ev(self, e, env):
+        e = cs.strip(e, casts=False)
+        v = cs.int_value(e) if not isinstance(e, Cast) else None
+        if v is not None:
+            return ("int", v)
+        if isinstance(e, Var):
+            if e.n in self.consts:
+                return ("int", self.consts[e.n])
+            r = env.get(e.n)
+            if r is not None and r[0] == "carried":
+                self.fail(f"`{e.n}` is read with the value the previous directory entry left in it (only the scan flag is modelled as carried state)")
+            return r
+        if isinstance(e, Cast):
+            inner = self.ev(e.e, env)
+            # integer conversions of a length or a non-negative constant keep the value; a converted character does not (sign)
+            if inner is not None and inner[0] in ("int", "len") and e.ty in ("u64", "i64", "u32", "i32") and not getattr(e, "ptr", 0):
+                return inner if inner[0] == "len" or inner[1] >= 0 else None
+            return None
+        if isinstance(e, Index):
+            a, i = self.ev(e.a, env), self.ev(e.i, env)
+            if a == ("entry",) and i is not None and i[0] == "int":
+                return ("char", i[1])
+            if a == ("entry",) and i == ("scanidx",):
+                return ("scanchar",)
+            if a == ("pathv",) and i == ("entryidx",):
+                return ("entry",)
+            return None
+        if isinstance(e, Member) and not e.arrow and self.ev(e.e, env) == ("globbuf",):
+            return {"gl_pathv": ("pathv",), "gl_pathc": ("pathc",)}.get(e.name)
+        if isinstance(e, Call) and e.f == "strlen" and len(e.args) == 1 and self.ev(e.args[0], env) == ("entry",):
+            return ("len",)
+        if isinstance(e, Call) and e.f == "remove" and len(e.args) == 1 and self.ev(e.args[0], env) == ("entry",):
+            return ("removecall",)
+        return None
+
+    # -- conditions
+    def atom(self, b, env, leaf):
+        """one comparison → ('len', op, k) | ('char', idx, op, k) | ('flag', name, positive) | ('remove', ...)"""
+        a, c, op = self.ev(b.a, env), self.ev(b.b, env), b.op
+        if c is not None and c[0] != "int" and a is not None and a[0] == "int":
+            a, c, op = c, a, cs.FLIP[op]
+        if a is None or c is None or c[0] != "int":
+            self.fail("unsupported comparison `" + cs.key(b.a) + " " + op + " " + cs.key(b.b) + "` in the clean predicate")
+        k = c[1]
+        if a == ("len",):
+            return ("len", op, k)
+        if a[0] == "char" and leaf is None:
+            return ("char", a[1], op, k)
+        if a == ("scanchar",) and leaf == "scan":
+            return ("char", None, op, k)
+        if a[0] == "scan" and k == 0 and op in ("eq", "ne"):
+            return ("flag", a[1], op == "ne")
+        if a in (("removecall",), ("removed",)) and op in ("eq", "ne", "lt", "gt", "le", "ge"):
+            return ("remove",)
+        self.fail("unsupported comparison `" + cs.key(b.a) + " " + op + " " + cs.key(b.b) + "` in the clean predicate")
+
+    def cond(self, e, env, neg=False, leaf=None):
+        """truth value of e → tree: ('len'…) ('char'…) ('flag'…) ('remove',) ('and'|'or', [items])"""
+        e = cs.inline_calls(e, self.funcs, self.where, CLEAN_TYPEDEFS)
+        t = cs.truth(cs.subst(e, self.cenv), neg)
+
+        def go(t):
+            if isinstance(t, cs.BConst):
+                self.fail("constant condition in the clean predicate")
+            if isinstance(t, cs.BAtom):
+                return self.atom(t, env, leaf)
+            return (t.op, [go(x) for x in t.items])
+        return go(t)
+
+    def char_lean(self, c):
+        """character condition tree → (index, Lean CharCond term); operands in canonical order"""
+        if c[0] == "char":
+            if not 0 <= c[3] <= 127:
+                self.fail("character constant outside ASCII")
+            return c[1], (c[3], c[2]), f"(.cmp .{CMP[c[2]]} {c[3]})"
+        if c[0] in ("and", "or"):
+            parts = [self.char_lean(x) for x in c[1]]
+            idx = {p[0] for p in parts}
+            if len(idx) != 1:
+                self.fail("character test mixes several indices")
+            parts.sort(key=lambda p: (p[1], p[2]))
+            term = parts[0][2]
+            for p in parts[1:]:
+                term = f"(.{c[0]} {term} {p[2]})"
+            return idx.pop(), parts[0][1], term
+        self.fail("a character test is combined with a test of another kind")
+
+    def is_char(self, c):
+        return c[0] == "char" or (c[0] in ("and", "or") and all(self.is_char(x) for x in c[1]))
+
+    def reject(self, c):
+        """`if (c) continue;`"""
+        if self.action is not None:
+            self.fail("a rejecting test after the removing call")
+        if c[0] == "or" and not self.is_char(c):
+            # `if (a || b) continue;` = `if (a) continue; if (b) continue;` (same evaluation order)
+            run = []
+            for x in c[1]:
+                if self.is_char(x) and run and self.is_char(run[-1]) and self.char_lean(x)[0] == self.char_lean(run[-1])[0]:
+                    run[-1] = ("or", [run[-1], x])
+                else:
+                    run.append(x)
+            for x in run:
+                self.reject(x)
+            return
+        if c[0] == "len":
+            self.steps.append(f".rejectIfLen .{CMP[c[1]]} {c[2]}")
+        elif self.is_char(c):
+            idx, _, term = self.char_lean(c)
+            self.steps.append(f".rejectIfCharAt {idx} {term}")
+        elif c[0] == "flag":
+            name, positive = c[1], c[2]
+            if positive:
+                self.fail("the entry is skipped when the scan flag is still SET (expected: when it was cleared)")
+            if name not in self.pending:
+                self.fail("the scan flag is tested twice / without a preceding scan loop")
+            self.steps.append(self.pending.pop(name))
+        else:
+            self.fail("unsupported rejecting test in the match loop")
+
+    # -- statements of the match loop
+    @staticmethod
+    def harmless(s):
+        return s[0] == "expr" and isinstance(s[1], Call) and s[1].f == "fprintf" and s[1].args and cs.key(s[1].args[0]) == "stderr"
+
+    def only_continue(self, stmts):
+        ss = [s for s in stmts if not self.harmless(s)]
+        return len(ss) == 1 and ss[0][0] == "continue"
+
+    def run(self, stmts, env):
+        for n, s in enumerate(stmts):
+            rest = stmts[n + 1:]
+            k = s[0]
+            if self.harmless(s):
+                continue
+            if k == "continue":
+                return                      # end of this entry: what follows is unreachable
+            if self.action is not None:
+                self.fail("statements after the removing call")
+            if k == "decl":
+                d = s[1]
+                if d.name in self.cenv:
+                    continue
+                if d.init is None:
+                    env[d.name] = ("carried", None)
+                    continue
+                v = self.ev(d.init, env)
+                if v == ("removecall",):
+                    self.action, v = "remove", ("removed",)
+                if v is None:
+                    self.fail(f"unsupported initialiser of `{d.name}` in the match loop")
+                env[d.name] = v
+            elif k == "expr":
+                e = s[1]
+                if isinstance(e, AssignE) and e.op == "=" and isinstance(e.lhs, Var):
+                    v = self.ev(e.rhs, env)
+                    if v == ("removecall",):
+                        self.action, v = "remove", ("removed",)
+                    if v is None:
+                        self.fail(f"unsupported assignment to `{e.lhs.n}` in the match loop")
+                    if e.lhs.n in self.pending:
+                        self.fail("the scan flag is overwritten before it is tested")
+                    env[e.lhs.n] = v
+                elif self.ev(e, env) == ("removecall",) or (isinstance(e, Cast) and self.ev(e.e, env) == ("removecall",)):
+                    self.action = "remove"
+                else:
+                    self.fail("unexpected statement `" + cs.key(e)[:80] + "` in the match loop")
+            elif k == "if":
+                T, E = s[2], s[3] or []
+                c = self.cond(s[1], env)
+                if c == ("remove",) or (c[0] in ("and", "or") and ("remove",) in c[1]):
+                    if c != ("remove",) or not all(self.harmless(x) for x in T + E):
+                        self.fail("unexpected statement after a failed remove")
+                    self.action = "remove"
+                    continue
+                tdiv, ediv = self.only_continue(T), self.only_continue(E)
+                if tdiv and not ediv:
+                    self.reject(c)
+                    return self.run(E + rest, env)
+                if ediv and not tdiv:
+                    self.reject(self.cond(s[1], env, neg=True))
+                    return self.run(T + rest, env)
+                if not tdiv and not ediv and not [x for x in E if not self.harmless(x)] and not [x for x in rest if not self.harmless(x)]:
+                    # `if (ok) { …rest of the entry… }` as the last statement = `if (!ok) continue; …`
+                    self.reject(self.cond(s[1], env, neg=True))
+                    return self.run(T, env)
+                self.fail("unsupported if/else in the match loop")
+            elif k == "loop":
+                self.scan(s, env)
+            elif k == "block":
+                self.run(s[1], env)
+            else:
+                self.fail(f"unexpected {k} statement in the match loop")
+
+    def scan(self, s, env):
+        """`for (i = START; i OP len - MINUS; i++) { c = entry[i]; if (COND(c)) { flag = false; break; } }`"""
+        _, init, cnd, step, body = s
+        if len(step) != 1 or cs.as_increment(step[0][1]) is None or cs.as_increment(step[0][1])[1] != 1:
+            self.fail("scan loop step is not an increment by one")
+        J = cs.as_increment(step[0][1])[0]
+        for x in init:
+            if not (x[0] == "expr" and isinstance(x[1], AssignE) and x[1].op == "=" and isinstance(x[1].lhs, Var)):
+                self.fail("scan loop init is not an assignment")
+            v = self.ev(x[1].rhs, env)
+            if v is None:
+                self.fail("scan loop init is not `index = K`")
+            env[x[1].lhs.n] = v
+        start = env.get(J)
+        if start is None or start[0] != "int":
+            self.fail("scan loop init is not `index = K`")
+        if cnd is None:
+            self.fail("scan loop without a condition")
+        t = cs.truth(cs.subst(cnd, self.cenv))
+        if not isinstance(t, cs.BAtom) or t.op not in CMP:
+            self.fail("scan loop condition has unexpected shape")
+        a, b, op = t.a, t.b, t.op
+        if not (isinstance(cs.strip(a), Var) and cs.strip(a).n == J):
+            a, b, op = b, a, cs.FLIP[op]
+        if not (isinstance(cs.strip(a), Var) and cs.strip(a).n == J):
+            self.fail("scan loop condition does not compare the index")
+        b = cs.strip(b, casts=False)
+        if self.ev(b, env) == ("len",):
+            minus = 0
+        elif isinstance(b, Bin) and b.op == "sub" and self.ev(b.a, env) == ("len",) and (self.ev(b.b, env) or ("?",))[0] == "int" \
+                and self.ev(b.b, env)[1] >= 0:
+            minus = self.ev(b.b, env)[1]
+        else:
+            self.fail("scan loop bound is not `pathLength - K`")
+        lenvars = [v for v in cs.free_vars(b) if env.get(v) == ("len",)]
+        for v in lenvars:
+            if self.types.get(v) != "size_t":
+                self.fail(f"the length `{v}` is no longer a size_t (the bound `length - K` is modelled with size_t wrap-around)")
+        if self.types.get(J) not in ("int", "size_t", "unsigned int", "unsigned", "U32"):
+            self.fail(f"scan index `{J}` has an unexpected type")
+        # body
+        env2 = dict(env)
+        env2[J] = ("scanidx",)
+        fire = None
+        body = [x for x in body if not self.harmless(x)]
+        i = 0
+        while i < len(body) and body[i][0] == "decl":
+            d = body[i][1]
+            v = self.ev(d.init, env2) if d.init is not None else None
+            if v != ("scanchar",) or not d.is_const or d.ty != "char" or d.ptr:
+                self.fail("scan loop body has unexpected shape")
+            env2[d.name] = v
+            i += 1
+        body = body[i:]
+
+        def fire_block(ss):
+            ss = [x for x in ss if not self.harmless(x)]
+            if len(ss) == 2 and ss[1][0] == "break" and ss[0][0] == "expr" and isinstance(ss[0][1], AssignE) and ss[0][1].op == "=" \
+                    and isinstance(ss[0][1].lhs, Var) and cs.int_value(ss[0][1].rhs) == 0:
+                return ss[0][1].lhs.n
+            return None
+        if not body or body[0][0] != "if":
+            self.fail("scan loop body has unexpected shape")
+        _, c, T, E = body[0]
+        E = E or []
+        after = body[1:]
+        if fire_block(T) and not E and not after:
+            flag, neg = fire_block(T), False
+        elif fire_block(E) and not [x for x in T if not self.harmless(x)] and not after:
+            flag, neg = fire_block(E), True
+        elif self.only_continue(T) and not E and fire_block(after):
+            flag, neg = fire_block(after), True
+        else:
+            self.fail("scan loop must clear the flag and break")
+        cc = self.cond(c, env2, neg=neg, leaf="scan")
+        if not self.is_char(cc):
+            self.fail("scan loop condition is not a character test")
+        _, _, term = self.char_lean(cc)
+        # the flag's state when the scan starts
+        st = env.get(flag)
+        if flag in self.pending:
+            self.fail("two scan loops without a test between them")
+        if self.flag_seen:
+            self.fail("more than one scan loop")
+        self.flag_seen = True
+        if st == ("int", 1):
+            self.flag_carried = None
+        elif st is not None and st[0] == "carried":
+            if st[1] not in (0, 1):
+                self.fail(f"the scan flag `{flag}` is neither initialised at its declaration nor set before the scan")
+            self.flag_carried = bool(st[1])
+        else:
+            self.fail(f"the scan flag `{flag}` is not `true` when the scan starts")
+        self.pending[flag] = f".rejectIfAnyInRange {start[1]} .{CMP[op]} {minus} {term}"
+        env[flag] = ("scan", flag)
+        env[J] = ("carried", None)      # the index is no longer a known constant
+
+
 def extract_clean(repo, consts):
     W = "main.c"
     funcs, _ = functions_of(repo, "main.c")
@@ -313,149 +626,161 @@ def extract_clean(repo, consts):
         raise ExtractFail(W, "cleanImplementationFiles not found")
     f = funcs["cleanImplementationFiles"]
     where = f"{W}:{f.line}"
-    stmts = parse_stmts(f.body_toks, where)
-    glob_pat = None
-    glob_flags = None
-    loop = None
-    for s in stmts:
-        if s[0] == "simple" and any(t.text == "glob" for t in s[1]):
-            txt = s[1]
-            k = [i for i, t in enumerate(txt) if t.text == "glob"][0]
-            e = matching(txt, k + 1, "(", ")", where)
-            args = cfront.split_params(txt[k + 2:e])
-            if len(args) != 4 or args[0][0].kind != "str":
-                raise ExtractFail(where, "glob(...) call has unexpected arguments")
-            glob_pat = c_string(args[0][0].text, where)
-            glob_flags = [t.text for t in args[1] if t.kind == "id"]
-            if norm(args[1]).replace("|", "") != "".join(glob_flags) or norm(args[2]) != "NULL":
-                raise ExtractFail(where, "glob flags / error callback have unexpected shape")
-        elif s[0] == "for":
-            if loop is not None:
-                raise ExtractFail(where, "more than one loop in cleanImplementationFiles")
-            loop = s
-        elif s[0] == "if":
-            # the glob-result test: must only return
-            if "return" not in norm(sum([x[1] for x in flatten(body_list(s[2])) if x[0] == "simple"], [])):
-                raise ExtractFail(where, "unexpected top-level if in cleanImplementationFiles")
-        elif s[0] == "simple":
-            t = norm(s[1])
-            if not (re.match(r"^(char\*|int|bool|size_t|glob_t|constint)", t) or t.startswith("globfree(")):
-                raise ExtractFail(where, f"unexpected statement `{text_of(s[1])}` in cleanImplementationFiles")
-        else:
-            raise ExtractFail(where, f"unexpected {s[0]} statement in cleanImplementationFiles")
-    if glob_pat is None or loop is None:
-        raise ExtractFail(where, "glob call or match loop not found")
-    if norm(loop[2]) != "pathIndex<globbuf.gl_pathc" or norm(loop[3]) != "pathIndex++" or norm(loop[1]) != "":
-        raise ExtractFail(where, "match loop header changed: " + text_of(loop[2]))
-    # initial values of the scalars (declarations before the loop)
-    idx_val = None
-    steps = []
-    pending_scan = None      # a digit loop whose flag has not been tested yet
-    action = None
-    flag = None
-    have_path = have_len = False
-    for s in body_list(loop[4]):
-        if action is not None:
-            raise ExtractFail(where, "statements after the removing call")
-        if s[0] == "simple":
-            t = norm(s[1])
-            if t == "path=globbuf.gl_pathv[pathIndex]":
-                have_path = True
-            elif t == "pathCharIndex=0":
-                idx_val = 0
-            elif re.match(r"^(\w+)=true$", t):
-                flag = t.split("=")[0]
-            elif t == "pathLength=strlen(path)":
-                have_len = True
-            elif t.startswith("fprintf(stderr,"):
-                pass
-            else:
-                raise ExtractFail(where, f"unexpected statement `{text_of(s[1])}` in the match loop")
-        elif s[0] == "if":
-            if s[3] is not None:
-                raise ExtractFail(where, "if/else in the match loop")
-            body = body_list(s[2])
-            cond = parse_e(s[1], where)
-            if len(body) == 1 and is_simple(body[0], "continue"):
-                if not (have_path and have_len):
-                    raise ExtractFail(where, "test before path/pathLength are set")
-                # which kind?
-                if isinstance(cond, Un) and cond.op == "lnot" and isinstance(cond.e, Var) and cond.e.n == flag:
-                    if pending_scan is None:
-                        raise ExtractFail(where, f"`!{flag}` tested without a preceding scan loop")
-                    steps.append(pending_scan)
-                    pending_scan = None
-                elif isinstance(cond, Bin) and cond.op in CMP and isinstance(cond.a, Var) and cond.a.n == "pathLength":
-                    k = cond.b
-                    if isinstance(k, Var) and k.n in consts:
-                        kv = consts[k.n]
-                    elif isinstance(k, IntLit):
-                        kv = k.value
-                    else:
-                        raise ExtractFail(where, "length compared with a non-constant")
-                    steps.append(f".rejectIfLen .{CMP[cond.op]} {kv}")
-                else:
-                    idxs = set()
+    body = cs.lower(cs.parse_stmts(f.body_toks, where, CLEAN_TYPEDEFS), where)
+    decls = cs.declared(body)
+    helpers = {n: fd for n, fd in funcs.items() if n != "cleanImplementationFiles"}
+    C = _Clean(where, consts, helpers)
+    C.types = {n: d.ty + "*" * d.ptr for n, d in decls.items()}
+    C.cenv = cs.constant_env(body, cs.param_names(f))
 
-                    def leaf(x):
-                        if isinstance(x, Index) and isinstance(x.a, Var) and x.a.n == "path":
-                            if isinstance(x.i, IntLit):
-                                idxs.add(x.i.value)
-                                return True
-                            if isinstance(x.i, Var) and x.i.n == "pathCharIndex" and idx_val is not None:
-                                idxs.add(idx_val)
-                                return True
-                        return False
-                    c = cond_to_lean(cond, leaf, where)
-                    if len(idxs) != 1:
-                        raise ExtractFail(where, "character test mixes several indices")
-                    steps.append(f".rejectIfCharAt {idxs.pop()} {c}")
-            elif isinstance(cond, Bin) and cond.op == "ne" and isinstance(cond.a, Call) and cond.a.f == "remove" \
-                    and len(cond.a.args) == 1 and isinstance(cond.a.args[0], Var) and cond.a.args[0].n == "path" \
-                    and isinstance(cond.b, IntLit) and cond.b.value == 0:
-                for b in body:
-                    if not (b[0] == "simple" and norm(b[1]).startswith("fprintf(stderr,")):
-                        raise ExtractFail(where, "unexpected statement after a failed remove")
-                if pending_scan is not None:
-                    raise ExtractFail(where, "scan loop result is never tested")
-                action = "remove"
-            else:
-                raise ExtractFail(where, f"unexpected test `{text_of(s[1])}` in the match loop")
-        elif s[0] == "for":
-            if pending_scan is not None:
-                raise ExtractFail(where, "two scan loops without a test between them")
-            init = parse_e(s[1], where)
-            cnd = parse_e(s[2], where)
-            if not (isinstance(init, AssignE) and init.op == "=" and isinstance(init.lhs, Var)
-                    and init.lhs.n == "pathCharIndex" and isinstance(init.rhs, IntLit)):
-                raise ExtractFail(where, "scan loop init is not `pathCharIndex = K`")
-            if norm(s[3]) != "pathCharIndex++":
-                raise ExtractFail(where, "scan loop step is not `pathCharIndex++`")
-            if not (isinstance(cnd, Bin) and cnd.op in CMP and isinstance(cnd.a, Var) and cnd.a.n == "pathCharIndex"):
-                raise ExtractFail(where, "scan loop condition has unexpected shape")
-            r = cnd.b
-            if isinstance(r, Var) and r.n == "pathLength":
-                minus = 0
-            elif isinstance(r, Bin) and r.op == "sub" and isinstance(r.a, Var) and r.a.n == "pathLength" \
-                    and isinstance(r.b, IntLit):
-                minus = r.b.value
-            else:
-                raise ExtractFail(where, "scan loop bound is not `pathLength - K`")
-            b = body_list(s[4])
-            if len(b) != 2 or b[0][0] != "simple" or norm(b[0][1]) != "constcharc=path[pathCharIndex]" or b[1][0] != "if":
-                raise ExtractFail(where, "scan loop body has unexpected shape")
-            inner = body_list(b[1][2])
-            if b[1][3] is not None or len(inner) != 2 or not is_simple(inner[0], f"{flag}=false") \
-                    or not is_simple(inner[1], "break"):
-                raise ExtractFail(where, "scan loop must clear the flag and break")
-            c = cond_to_lean(parse_e(b[1][1], where), lambda x: isinstance(x, Var) and x.n == "c", where)
-            pending_scan = f".rejectIfAnyInRange {init.rhs.value} .{CMP[cnd.op]} {minus} {c}"
-            idx_val = None      # the index variable is no longer a known constant
+    def fail(why):
+        raise ExtractFail(where, why)
+    # ---- the glob call and the roles it defines
+    calls = [(s, x) for s in cs.walk(body) for e in cs.stmt_exprs(s) for x in cs.subexprs(e) if isinstance(x, Call) and x.f == "glob"]
+    if len(calls) != 1:
+        fail("glob(...) is not called exactly once")
+    gstmt, g = calls[0]
+    if gstmt not in body:
+        fail("the glob call is not a top-level statement of cleanImplementationFiles")
+    if len(g.args) != 4:
+        fail("glob(...) call has unexpected arguments")
+    pat = cs.subst(g.args[0], C.cenv)
+    if not cs.is_str(pat):
+        fail("glob(...) call has unexpected arguments")
+    glob_pat = cs.str_value(pat, where)
+
+    def flag_names(e):
+        e = cs.strip(cs.subst(e, C.cenv))
+        if isinstance(e, Bin) and e.op == "bor":
+            return flag_names(e.a) + flag_names(e.b)
+        if isinstance(e, Var):
+            return [e.n]
+        if cs.int_value(e) == 0:
+            return []
+        fail("glob flags / error callback have unexpected shape")
+    glob_flags = sorted(flag_names(g.args[1]))
+    if cs.int_value(g.args[2]) != 0:
+        fail("glob flags / error callback have unexpected shape")
+    if not (isinstance(g.args[3], AddrOf) and isinstance(g.args[3].e, Var)):
+        fail("glob(...) call has unexpected arguments")
+    G = g.args[3].e.n
+    # the variable holding glob's result (or the call used directly in the test)
+    R = None
+    if gstmt[0] == "decl" and gstmt[1].init is g:
+        R = gstmt[1].name
+    elif gstmt[0] == "expr" and isinstance(gstmt[1], AssignE) and gstmt[1].op == "=" and gstmt[1].rhs is g and isinstance(gstmt[1].lhs, Var):
+        R = gstmt[1].lhs.n
+    elif gstmt[0] != "if":
+        fail("the result of glob(...) is not kept or tested")
+    changed = cs.assigned_vars(body)
+
+    def result_test(e):
+        """+1: e is true iff glob failed, -1: iff it succeeded, 0: not a test of the result"""
+        t = cs.truth(cs.subst(e, C.cenv))
+        if isinstance(t, cs.BAtom) and cs.int_value(t.b) == 0 and t.op in ("eq", "ne"):
+            a = cs.strip(t.a)
+            if (R is not None and isinstance(a, Var) and a.n == R) or a is g or (isinstance(a, Call) and a.f == "glob"):
+                return 1 if t.op == "ne" else -1
+        return 0
+
+    def quiet(ss):
+        """the failure path: only messages, tests of the result code and `return`"""
+        for s in ss:
+            if _Clean.harmless(s) or s[0] == "return":
+                continue
+            if s[0] == "if" and cs.is_pure(s[1]) and quiet(s[2]) and quiet(s[3] or []):
+                continue
+            return False
+        return True
+
+    def returns(ss):
+        return bool(ss) and ss[-1][0] == "return"
+    # ---- the path taken when glob succeeded
+    path = []
+    tested = False
+    todo = list(body)
+    while todo:
+        s = todo.pop(0)
+        if s[0] == "if" and result_test(s[1]) != 0:
+            tested = True
+            bad, good = (s[2], s[3] or []) if result_test(s[1]) > 0 else (s[3] or [], s[2])
+            if not quiet(bad):
+                fail("unexpected top-level if in cleanImplementationFiles")
+            if not returns(bad) and [x for x in todo if not _Clean.harmless(x)]:
+                fail("after a failed glob the function goes on")
+            if returns(good) and todo:
+                fail("unexpected top-level if in cleanImplementationFiles")
+            todo = list(good) + todo
+            continue
+        if s is gstmt and s[0] == "if":
+            fail("unexpected top-level if in cleanImplementationFiles")
+        path.append(s)
+    if not tested:
+        fail("the result of glob(...) is never tested")
+    loop = None
+    for s in path:
+        if s is gstmt or _Clean.harmless(s):
+            continue
+        if s[0] == "decl":
+            if s[1].init is not None and not cs.is_pure(s[1].init):
+                fail(f"unexpected statement `{s[1].name} = …` in cleanImplementationFiles")
+        elif s[0] == "loop":
+            if loop is not None:
+                fail("more than one loop in cleanImplementationFiles")
+            loop = s
+        elif s[0] == "expr" and isinstance(s[1], Call) and s[1].f == "globfree" and cs.key(s[1].args[0]) == "&" + G:
+            if loop is None:
+                fail("globfree before the match loop")
+        elif s[0] == "return" and s is path[-1]:
+            pass
         else:
-            raise ExtractFail(where, f"unexpected {s[0]} statement in the match loop")
-    if action != "remove":
-        raise ExtractFail(where, "the match loop does not end in remove(path)")
-    return glob_pat, glob_flags, steps
+            fail(f"unexpected {s[0]} statement in cleanImplementationFiles")
+    if loop is None:
+        fail("glob call or match loop not found")
+    # ---- the match loop visits every entry once, in order
+    _, init, cnd, step, lbody = loop
+    if len(step) != 1 or cs.as_increment(step[0][1]) is None or cs.as_increment(step[0][1])[1] != 1 or cnd is None:
+        fail("match loop header changed: the step is not an increment by one")
+    I = cs.as_increment(step[0][1])[0]
+    t = cs.truth(cs.subst(cnd, C.cenv))
+    ok = isinstance(t, cs.BAtom) and ((t.op == "lt" and cs.key(t.a) == I and cs.key(t.b) == f"{G}.gl_pathc")
+                                      or (t.op == "gt" and cs.key(t.b) == I and cs.key(t.a) == f"{G}.gl_pathc"))
+    if not ok:
+        fail("match loop header changed: " + cs.key(cnd))
+    start = None
+    for x in init:
+        if x[0] == "expr" and isinstance(x[1], AssignE) and x[1].op == "=" and cs.key(x[1].lhs) == I:
+            start = cs.int_value(x[1].rhs)
+        elif x[0] == "decl" and x[1].name == I and x[1].init is not None:
+            start = cs.int_value(x[1].init)
+        else:
+            fail("match loop header changed: unexpected initialisation")
+    inner_assigned = cs.assigned_vars(lbody)
+    outer_assigned = cs.assigned_vars([s for s in body if s is not loop])
+    if start is None:
+        if I not in decls or decls[I].init is None or I in outer_assigned:
+            fail("match loop header changed: the entry index does not start at 0")
+        start = cs.int_value(decls[I].init)
+    if start != 0 or I in inner_assigned or G in inner_assigned:
+        fail("match loop header changed: the entry index does not run over 0 … gl_pathc-1")
+    if cs.has_jump(lbody, "break") or any(s[0] == "return" for s in cs.walk(lbody)):
+        fail("the match loop is left early (break / return)")
+    # ---- one entry, symbolically
+    env = {G: ("globbuf",), I: ("entryidx",)}
+    for n, d in decls.items():
+        if n in (G, I) or n in C.cenv:
+            continue
+        v = cs.int_value(d.init) if d.init is not None else None
+        if n in inner_assigned:
+            env[n] = ("carried", v)             # whatever the previous entry left there (first entry: the declaration)
+        elif n not in outer_assigned and v is not None:
+            env[n] = ("int", v)
+    C.run(lbody, env)
+    if C.action != "remove":
+        fail("the match loop does not end in remove(path)")
+    if C.pending:
+        fail("scan loop result is never tested")
+    return glob_pat, glob_flags, C.steps, C.flag_carried
 
 
 def flatten(stmts):
@@ -512,9 +837,51 @@ def extract_main(repo):
     main = funcs["main"]
     where = f"{W}:{main.line}"
     toks = main.body_toks
+    n2 = norm(toks).replace(" ", "")        # string literal tokens keep their spaces in norm(): a space-free variant for matching
+    ID = r"[A-Za-z_]\w*"
+    # ---- the roles of main()'s locals (their names are free): bound through the calls / fields they flow into
+    role = {}
+
+    def bind(name, pat, what):
+        ms = list(re.finditer(pat, n2, re.S))
+        if len(ms) != 1:
+            raise ExtractFail(where, f"main(): {what} not found exactly once in its expected shape")
+        for k, v in ms[0].groupdict().items():
+            if role.setdefault(k, v) != v:
+                raise ExtractFail(where, f"main(): `{v}` and `{role[k]}` both play the role `{k}`")
+        return ms[0]
+    seq = []
+    m = bind("readModule", rf"if\(!readWasmBinary\((?P<modulePath>{ID}),&(?P<reader>{ID}),(?P<debug>(?!false\))(?!true\)){ID})\)\)\{{return1;\}}", "step `readModule`")
+    seq.append((m.start(), "readModule"))
+    m = bind("readReference", rf"if\((?P<refPath>{ID})!=NULL\)\{{(?:(?!\}}else).)*?if\(!readWasmBinary\((?P=refPath),&(?P<refReader>{ID}),false\)\)\{{return1;\}}",
+             "step `readReference`")
+    seq.append((m.start(), "readReference"))
+    m = bind("defaultFpf", rf"if\((?P<fpf>{ID})==0\)\{{(?P=fpf)=(?P<reader>{ID})\.module->functions\.count;\}}", "step `defaultFpf`")
+    seq.append((m.start(), "defaultFpf"))
+    m = bind("chdirOut", rf"if\(!changeToOutputDirectory\((?P<outputPath>{ID})\)\)\{{return1;\}}", "step `chdirOut`")
+    seq.append((m.start(), "chdirOut"))
+    m = bind("clean", rf"if\((?P<clean>{ID})\)\{{cleanImplementationFiles\(\);\}}", "step `clean`")
+    seq.append((m.start(), "clean"))
+    m = bind("writeModule", rf"if\(!wasmCWriteModule\((?P<reader>{ID})\.module,{ID},(?P<writeOptions>{ID}),(?P<staticIDs>{ID}),(?P<dynamicIDs>{ID})\)\)"
+                            r"\{fprintf\(stderr,\"w2c2:failedtocompile\\n\"\);return1;\}", "step `writeModule`")
+    seq.append((m.start(), "writeModule"))
+    wo = re.escape(role["writeOptions"])
+    bind("options", rf"{wo}\.outputPath=(?P<outputPath>{ID});", "`writeOptions.outputPath = outputPath`")
+    bind("options", rf"{wo}\.functionsPerFile=(?P<fpf>{ID});", "`writeOptions.functionsPerFile = functionsPerFile`")
+    bind("options", rf"{wo}\.dataSegmentMode=(?P<dsMode>{ID});", "`writeOptions.dataSegmentMode = dataSegmentMode`")
+    bind("options", rf"{wo}\.threadCount=(?P<threadCount>{ID});", "`writeOptions.threadCount = threadCount`")
+    field_of = {m.group(2): m.group(1) for m in re.finditer(rf"{wo}\.(\w+)=({ID});", n2)}      # local -> option field it fills
+    bind("getopt", rf"while\(\((?P<opt>{ID})=getopt\(argc,argv,optString\)\)!=-1\)\{{switch\((?P=opt)\)", "the getopt loop")
+    if not re.search(rf"\}}else\{{{re.escape(role['staticIDs'])}=({ID});{re.escape(role['dynamicIDs'])}=emptyWasmFunctionIDs;\}}", n2):
+        raise ExtractFail(where, "main(): without -r all functions must be static")
+    res["mainSteps"] = [name for _, name in sorted(seq)]
+    for fn in ("readWasmBinary", "changeToOutputDirectory", "cleanImplementationFiles", "wasmCWriteModule"):
+        want = 2 if fn == "readWasmBinary" else 1
+        if count_calls(toks, fn) != want:
+            raise ExtractFail(where, f"main(): {fn} is called {count_calls(toks, fn)} times, expected {want}")
     # option letter -> assigned flag / mode names: walk `case 'x': { ... }` groups of the getopt switch
     stmts = flatten(parse_stmts(toks, where))
-    sw = [s for s in stmts if s[0] == "switch" and norm(s[1]) == "c"]
+    sw = [s for s in stmts if s[0] == "switch" and norm(s[1]) == role["opt"]]
     if len(sw) != 1:
         raise ExtractFail(where, "getopt switch not found")
     body = sw[0][2]
@@ -533,8 +900,8 @@ def extract_main(repo):
         if cur is not None:
             letters[cur].append(t)
         i += 1
-    clean_letters = [k for k, v in letters.items() if re.search(r"\bclean=true;", norm(v).replace("clean=true", " clean=true"))
-                     or "clean=true;" in norm(v)]
+    setter = re.compile(rf"(?<![\w.>]){re.escape(role['clean'])}=(?:true|1);")
+    clean_letters = [k for k, v in letters.items() if setter.search(norm(v))]
     if len(clean_letters) != 1:
         raise ExtractFail(where, "exactly one option must set `clean = true`")
     res["cleanLetter"] = clean_letters[0]
@@ -542,71 +909,146 @@ def extract_main(repo):
     for k, v in letters.items():
         m = re.match(r"^\{(\w+)=true;break;\}$", norm(v))
         if m:
-            simple[k] = m.group(1)
+            # a flag is named by its role: the clean flag, else the option field it is copied into
+            simple[k] = "clean" if m.group(1) == role["clean"] else field_of.get(m.group(1), m.group(1))
     res["flagLetters"] = simple
     # -d modes
+    dsm = re.escape(role["dsMode"])
     dtxt = norm(letters.get("d", []))
-    modes = re.findall(r'strcmp\(optarg,"([^"]+)"\)==0\)\{dataSegmentMode=(\w+);', dtxt)
+    modes = re.findall(rf'strcmp\(optarg,"([^"]+)"\)==0\)\{{{dsm}=(\w+);', dtxt)
     if not modes:
         raise ExtractFail(where, "-d mode table not found")
     res["modes"] = modes
-    if not re.search(r"WasmDataSegmentModedataSegmentMode=(\w+);", norm(toks)):
+    m = re.search(rf"WasmDataSegmentMode{dsm}=(\w+);", norm(toks))
+    if not m:
         raise ExtractFail(where, "default data segment mode not found")
-    res["defaultMode"] = re.search(r"WasmDataSegmentModedataSegmentMode=(\w+);", norm(toks)).group(1)
+    res["defaultMode"] = m.group(1)
     # -f / -t parsing
-    for letter, var in (("f", "functionsPerFile"), ("t", "threadCount")):
+    for letter, var in (("f", role["fpf"]), ("t", role["threadCount"])):
         if norm(letters.get(letter, [])) != "{%s=(U32)strtoul(optarg,NULL,0);break;}" % var:
             raise ExtractFail(where, f"-{letter} is not parsed as (U32) strtoul(optarg, NULL, 0)")
-    if norm(letters.get("r", [])) != "{referenceModulePath=optarg;break;}":
+    if norm(letters.get("r", [])) != "{%s=optarg;break;}" % role["refPath"]:
         raise ExtractFail(where, "-r does not just record the reference path")
-    # order of the file-relevant steps
-    n = norm(toks)
-    seq = []
-    pats = [
-        ("readModule", r"if\(!readWasmBinary\(modulePath,&reader,debug\)\)\{return1;\}"),
-        ("readReference", r"if\(referenceModulePath!=NULL\)\{.*?if\(!readWasmBinary\(referenceModulePath,&referenceReader,false\)\)\{return1;\}"),
-        ("defaultFpf", r"if\(functionsPerFile==0\)\{functionsPerFile=reader\.module->functions\.count;\}"),
-        ("chdirOut", r"if\(!changeToOutputDirectory\(outputPath\)\)\{return1;\}"),
-        ("clean", r"if\(clean\)\{cleanImplementationFiles\(\);\}"),
-        ("writeModule", r"if\(!wasmCWriteModule\(reader\.module,moduleName,writeOptions,staticFunctionIDs,dynamicFunctionIDs\)\)\{fprintf\(stderr,\"w2c2: failed to compile\\n\"\);return1;\}"),
-    ]
-    # string literal tokens keep their spaces in norm(); rebuild a space-free variant for matching
-    n2 = n.replace(" ", "")
-    for name, pat in pats:
-        ms = list(re.finditer(pat.replace(" ", ""), n2, re.S))
-        if len(ms) != 1:
-            raise ExtractFail(where, f"main(): step `{name}` not found exactly once in its expected shape")
-        seq.append((ms[0].start(), name))
-    for fn in ("readWasmBinary", "changeToOutputDirectory", "cleanImplementationFiles", "wasmCWriteModule"):
-        want = 2 if fn == "readWasmBinary" else 1
-        if count_calls(toks, fn) != want:
-            raise ExtractFail(where, f"main(): {fn} is called {count_calls(toks, fn)} times, expected {want}")
-    if not re.search(r"writeOptions\.outputPath=outputPath;", n2) or \
-            not re.search(r"writeOptions\.functionsPerFile=functionsPerFile;", n2) or \
-            not re.search(r"writeOptions\.dataSegmentMode=dataSegmentMode;", n2):
-        raise ExtractFail(where, "main(): writeOptions are not filled from the parsed options")
-    if not re.search(r"\}else\{staticFunctionIDs=functionIDs;dynamicFunctionIDs=emptyWasmFunctionIDs;\}", n2):
-        raise ExtractFail(where, "main(): without -r all functions must be static")
-    res["mainSteps"] = [name for _, name in sorted(seq)]
     # changeToOutputDirectory
     cd = funcs["changeToOutputDirectory"]
     c = norm(cd.body_toks).replace(" ", "")
-    # outputDir := dirname(copy of outputPath) — either by the overlapping strcpy of the pinned tree or by memmove
-    m = re.match(r'^charoutputDir\[(\w+)\];(?:constchar\*dir=NULL;)?strcpy\(outputDir,outputPath\);'
-                 r'(?:strcpy\(outputDir,dirname\(outputDir\)\);|dir=dirname\(outputDir\);memmove\(outputDir,dir,strlen\(dir\)\+1\);)'
-                 r'if\(chdir\(outputDir\)<0\)\{fprintf\(stderr,".*?",outputDir\);returnfalse;\}returntrue;$', c)
+    cdp = cs.param_names(cd)
+    if len(cdp) != 1:
+        raise ExtractFail(f"{W}:{cd.line}", "changeToOutputDirectory has unexpected shape")
+    pth = re.escape(cdp[0])
+    # outputDir := dirname(copy of outputPath) — either by the overlapping strcpy of the pinned tree or by memmove;
+    # the names of the buffer and of the temporary are free (bound by back-reference)
+    m = re.match(rf'^char(?P<buf>{ID})\[(?P<size>\w+)\];(?:constchar\*(?P<tmp>{ID})=NULL;)?strcpy\((?P=buf),{pth}\);'
+                 r'(?:strcpy\((?P=buf),dirname\((?P=buf)\)\);|(?P=tmp)=dirname\((?P=buf)\);memmove\((?P=buf),(?P=tmp),strlen\((?P=tmp)\)\+1\);)'
+                 r'if\(chdir\((?P=buf)\)<0\)\{fprintf\(stderr,".*?",(?P=buf)\);returnfalse;\}returntrue;$', c)
     if not m:
         raise ExtractFail(f"{W}:{cd.line}", "changeToOutputDirectory has unexpected shape")
-    res["outputDirBuf"] = m.group(1)
+    res["outputDirBuf"] = m.group("size")
     m = re.search(r"#ifndef\s+PATH_MAX\s*\n\s*#define\s+PATH_MAX\s+(\d+)", src)
     if not m:
         raise ExtractFail(W, "PATH_MAX fallback not found")
     res["pathMaxFallback"] = int(m.group(1))
     # readWasmBinary → readFile(path)
     rb = norm(funcs["readWasmBinary"].body_toks)
-    if "constBufferbuffer=readFile(path);" not in rb:
+    rbp = cs.param_names(funcs["readWasmBinary"])
+    if not rbp or not re.search(rf"constBuffer{ID}=readFile\({re.escape(rbp[0])}\);", rb) or count_calls(funcs["readWasmBinary"].body_toks, "readFile") != 1:
         raise ExtractFail(W, "readWasmBinary does not read through readFile(path)")
     return res
+
+
+ID = r"[A-Za-z_]\w*"
+
+
+def canon_params(f, expected, where):
+    """Parameter names are free: the parameters are identified by POSITION and TYPE (which is what the call sites rely on) and
+    renamed to the canonical names the shape patterns below use.  expected = [(canonical name, type words, pointer depth)].
+    Returns the renamed body tokens."""
+    names = cs.param_names(f)
+    types = cs.param_types(f)
+    if len(names) != len(expected):
+        raise ExtractFail(where, f"{f.name} has {len(names)} parameters, expected {len(expected)}")
+    mapping = {}
+    for n, (canon, ty, ptr) in zip(names, expected):
+        if types[n] != (ty, ptr):
+            raise ExtractFail(where, f"{f.name}: parameter `{n}` has type {types[n][0]}{'*' * types[n][1]}, expected {ty}{'*' * ptr}")
+        mapping[n] = canon
+    return cs.rename(f.body_toks, mapping, where), mapping
+
+
+def local_array(toks, name, where):
+    """dimension tokens of the declaration `char NAME[...]` of a local buffer"""
+    hits = [i for i, t in enumerate(toks) if t.text == name and i > 0 and toks[i - 1].text == "char" and i + 1 < len(toks) and toks[i + 1].text == "["]
+    if len(hits) != 1:
+        raise ExtractFail(where, f"`{name}` is not declared exactly once as a local char array")
+    e = matching(toks, hits[0] + 1, "[", "]", where)
+    return toks[hits[0] + 2:e]
+
+
+def const_int(toks, consts, where):
+    """value of a constant integer expression over literals and the known #define constants (compared by VALUE)"""
+    def ev(e):
+        e = cs.strip(e)
+        v = cs.int_value(e)
+        if v is not None:
+            return v
+        if isinstance(e, Var) and e.n in consts:
+            return consts[e.n]
+        if isinstance(e, Bin) and e.op in ("add", "sub", "mul"):
+            a, b = ev(e.a), ev(e.b)
+            return a + b if e.op == "add" else a - b if e.op == "sub" else a * b
+        raise ExtractFail(where, "not a constant expression: " + cs.key(e))
+    return ev(cs.parse_expr(toks, where))
+
+
+def count_writes(toks, name):
+    """how often the variable is written: initialised, assigned, compound-assigned, incremented, or has its address taken"""
+    n = 0
+    for i, t in enumerate(toks):
+        if t.text != name or t.kind != "id" or (i > 0 and toks[i - 1].text in (".", "->")):
+            continue
+        nxt = toks[i + 1].text if i + 1 < len(toks) else ""
+        prv = toks[i - 1].text if i > 0 else ""
+        if nxt in ("=", "+=", "-=", "*=", "/=", "%=", "&=", "|=", "^=", "<<=", ">>=", "++", "--") or prv in ("++", "--", "&") and not (
+                prv == "&" and i > 1 and (toks[i - 2].kind in ("id", "num") or toks[i - 2].text in (")", "]"))):
+            n += 1
+    return n
+
+
+def single_id(arg, where, what):
+    if len(arg) != 1 or arg[0].kind != "id":
+        raise ExtractFail(where, f"{what} is not a plain variable")
+    return arg[0].text
+
+
+def receiver_of(toks, call, where):
+    """the variable V of the single statement `V = call(...)`"""
+    hits = [i for i, t in enumerate(toks) if t.text == call and i + 1 < len(toks) and toks[i + 1].text == "(" and i >= 2
+            and toks[i - 1].text == "=" and toks[i - 2].kind == "id"]
+    if len(hits) != 1:
+        raise ExtractFail(where, f"the result of {call}(…) is not assigned to a variable exactly once")
+    return toks[hits[0] - 2].text
+
+
+def string_constant(toks, arg, where):
+    """the string literal an argument denotes: the literal itself, or a local `… const NAME = "…"` that is never assigned again"""
+    if len(arg) == 1 and arg[0].kind == "str":
+        return arg[0].text
+    name = single_id(arg, where, "file name")
+    decl = [i for i, t in enumerate(toks) if t.text == name and i + 3 < len(toks) and toks[i + 1].text == "=" and toks[i + 2].kind == "str"
+            and toks[i + 3].text == ";" and i > 0 and (toks[i - 1].text in ("*", "const") or toks[i - 1].kind == "id")]
+    writes = [i for i, t in enumerate(toks) if t.text == name and i + 1 < len(toks) and toks[i + 1].text in ("=", "+=", "-=", "++", "--")
+              and not (i > 0 and toks[i - 1].text in (".", "->"))]
+    taken = [i for i, t in enumerate(toks) if t.text == name and i > 0 and toks[i - 1].text == "&"]
+    if len(decl) != 1 or writes != decl or taken:
+        raise ExtractFail(where, f"`{name}` is not a constant string")
+    k = decl[0] - 1
+    spec = []
+    while k >= 0 and toks[k].text not in (";", "{", "}"):
+        spec.append(toks[k].text)
+        k -= 1
+    if "char" not in spec or "*" not in spec:
+        raise ExtractFail(where, f"`{name}` is not a constant string")
+    return toks[decl[0] + 2].text
 
 
 def extract_c(repo, consts):
@@ -618,61 +1060,68 @@ def extract_c(repo, consts):
         if fn not in funcs:
             raise ExtractFail(W, f"{fn} not found")
     res = {}
-    # --- implementation file name
+    # --- implementation file name (parameters by position/type, the buffer and the FILE* by role)
     f = funcs["wasmCWriteImplementationFile"]
     where = f"{W}:{f.line}"
-    n = norm(f.body_toks)
-    m = re.search(r"charfilename\[(\w+)\+(\d+)\];", n)
-    if not m or m.group(1) not in consts:
-        raise ExtractFail(where, "filename buffer declaration has unexpected shape")
-    res["implBuf"] = consts[m.group(1)] + int(m.group(2))
-    args, _ = find_call(f.body_toks, "sprintf", where)
-    if count_calls(f.body_toks, "sprintf") != 1 or len(args) != 4 or norm(args[0]) != "filename" or args[1][0].kind != "str":
+    toks, _ = canon_params(f, [("module", "WasmModule", 1), ("moduleName", "char", 1), ("headerName", "char", 1), ("debugLines", "WasmDebugLines", 1),
+                               ("filePrefix", "char", 0), ("fileIndex", "U32", 0), ("functionsPerFile", "U32", 0), ("startFunctionIDIndex", "U32", 0),
+                               ("functionIDs", "WasmFunctionIDs", 0), ("pretty", "bool", 0), ("debug", "bool", 0), ("multipleModules", "bool", 0)], where)
+    args, _ = find_call(toks, "sprintf", where)
+    if count_calls(toks, "sprintf") != 1 or len(args) != 4:
         raise ExtractFail(where, "sprintf(filename, fmt, prefix, index) not found")
-    fmt = c_string(args[1][0].text, where)
+    buf = single_id(args[0], where, "the buffer sprintf writes")
+    res["implBuf"] = const_int(local_array(toks, buf, where), consts, where)
+    fmt = c_string(string_constant(toks, args[1], where), where)
     items, kinds = parse_format(fmt, where)
     if kinds != ["char", "uint"] or norm(args[2]) != "filePrefix" or norm(args[3]) != "fileIndex":
         raise ExtractFail(where, "implementation file name is not formatted from (filePrefix, fileIndex)")
-    p = norm(f.params)
-    if "constcharfilePrefix" not in p or "constU32fileIndex" not in p:
-        raise ExtractFail(where, "filePrefix/fileIndex do not have types char/U32")
     res["implFormat"] = fmt
     res["implItems"] = items
-    args, _ = find_call(f.body_toks, "fopen", where)
-    if count_calls(f.body_toks, "fopen") != 1 or norm(args[0]) != "filename":
+    args, _ = find_call(toks, "fopen", where)
+    if count_calls(toks, "fopen") != 1 or norm(args[0]) != buf:
         raise ExtractFail(where, "fopen(filename, …) not found")
-    res["implMode"] = c_string(args[1][0].text, where)
+    res["implMode"] = c_string(string_constant(toks, args[1], where), where)
     # --- datasegments
     f = funcs["wasmCWriteDataSegmentsFromSection"]
     where = f"{W}:{f.line}"
-    n = norm(f.body_toks)
-    m = re.search(r'staticconstchar\*constfilename=("[^"]*");', n)
-    if not m:
-        raise ExtractFail(where, "data segments file name not found")
-    res["dsName"] = c_string(m.group(1), where)
-    args, _ = find_call(f.body_toks, "fopen", where)
-    if count_calls(f.body_toks, "fopen") != 1 or norm(args[0]) != "filename":
+    toks, _ = canon_params(f, [("file", "FILE", 1), ("module", "WasmModule", 1), ("mode", "WasmDataSegmentMode", 0)], where)
+    args, _ = find_call(toks, "fopen", where)
+    if count_calls(toks, "fopen") != 1 or len(args) != 2:
         raise ExtractFail(where, "fopen(filename, …) not found in wasmCWriteDataSegmentsFromSection")
-    res["dsMode"] = c_string(args[1][0].text, where)
+    res["dsName"] = c_string(string_constant(toks, args[0], where), where)
+    res["dsMode"] = c_string(string_constant(toks, args[1], where), where)
     # a failing fopen there aborts
-    if not re.search(r"if\(segmentsFile==NULL\)\{fprintf\(.*?\);abort\(\);\}", n.replace(" ", ""), re.S):
+    sf = re.escape(receiver_of(toks, "fopen", where))
+    if not re.search(rf"if\({sf}==NULL\)\{{fprintf\((?:(?!\}}).)*?\);abort\(\);\}}", norm(toks).replace(" ", ""), re.S):
         raise ExtractFail(where, "failure of the data segments fopen no longer aborts")
-    # --- header / output: fopen(filename, mode)
+    # --- header / output: fopen(<the file-name parameter>, mode)
+    sig = {"wasmCWriteModuleHeader": [("module", "WasmModule", 1), ("moduleName", "char", 1), ("filename", "char", 1), ("pretty", "bool", 0),
+                                      ("debug", "bool", 0), ("multipleModules", "bool", 0), ("dataSegmentMode", "WasmDataSegmentMode", 0)],
+           "wasmCWriteModuleImplementation": [("module", "WasmModule", 1), ("moduleName", "char", 1), ("filename", "char", 1), ("headerName", "char", 1),
+                                              ("staticFunctionIDs", "WasmFunctionIDs", 0), ("dynamicFunctionIDs", "WasmFunctionIDs", 0),
+                                              ("options", "WasmCWriteModuleOptions", 0)]}
+    canon = {}
     for fn, key in (("wasmCWriteModuleHeader", "headerMode"), ("wasmCWriteModuleImplementation", "outputMode")):
         f = funcs[fn]
         where = f"{W}:{f.line}"
-        if count_calls(f.body_toks, "fopen") != 1:
+        toks, _ = canon_params(f, sig[fn], where)
+        canon[fn] = toks
+        if count_calls(toks, "fopen") != 1:
             raise ExtractFail(where, f"{fn} must open exactly one file")
-        args, _ = find_call(f.body_toks, "fopen", where)
-        if norm(args[0]) != "filename" or "constchar*filename" not in norm(f.params):
-            raise ExtractFail(where, f"{fn} does not open its `filename` parameter")
-        res[key] = c_string(args[1][0].text, where)
-        if not re.search(r"file=fopen\(filename,\"\w+\"\);if\(file==NULL\)\{fprintf\(.*?\);returnfalse;\}",
-                         norm(f.body_toks).replace(" ", ""), re.S):
+        args, _ = find_call(toks, "fopen", where)
+        if norm(args[0]) != "filename":
+            raise ExtractFail(where, f"{fn} does not open its file-name parameter")
+        res[key] = c_string(string_constant(toks, args[1], where), where)
+        fv = re.escape(receiver_of(toks, "fopen", where))
+        if not re.search(rf"{fv}=fopen\(filename,(?:\"\w+\"|{ID})\);if\({fv}==NULL\)\{{fprintf\((?:(?!\}}).)*?\);returnfalse;\}}",
+                         norm(toks).replace(" ", ""), re.S):
             raise ExtractFail(where, f"{fn}: a failing fopen must return false")
     # --- wasmCWriteModuleImplementation: modes that create datasegments, single-file condition, prefixes
     f = funcs["wasmCWriteModuleImplementation"]
     where = f"{W}:{f.line}"
+    f.body_toks = canon["wasmCWriteModuleImplementation"]       # parameters under their canonical names
+    fv = receiver_of(f.body_toks, "fopen", where)                # the FILE* of the output file, whatever it is called
+    f.body_toks = cs.rename(f.body_toks, {fv: "file"}, where)
     st = flatten(parse_stmts(f.body_toks, where))
     sw = [s for s in st if s[0] == "switch" and norm(s[1]) == "options.dataSegmentMode"]
     if len(sw) != 1:
@@ -742,57 +1191,88 @@ def extract_c(repo, consts):
     a, b, c = nn.find("fopen(filename"), nn.find("switch(options.dataSegmentMode)"), nn.find("if(options.functionsPerFile>=")
     if not (0 <= a < b < c):
         raise ExtractFail(where, "order output-open / data segments / implementation files changed")
-    # --- wasmCWriteModuleImplementationFiles: count arithmetic (hand-modelled: shape check only)
+    # --- wasmCWriteModuleImplementationFiles: count arithmetic (hand-modelled: shape check only; locals bound by data flow)
     f = funcs["wasmCWriteModuleImplementationFiles"]
     where = f"{W}:{f.line}"
-    nn = norm(f.body_toks)
-    shapes = [
-        "U32fileIndex=0;",
-        "constsize_tfunctionCount=functionIDs.length;",
-        "U32functionsPerFile=options.functionsPerFile;",
-        "if(functionCount==0){returntrue;}",
-        "if(functionsPerFile==0){functionsPerFile=UINT32_MAX;}",
-        "fileCount=1+(functionCount-1)/functionsPerFile;",
-        "for(;fileIndex<fileCount;fileIndex++){",
-        "task.filePrefix=filePrefix;",
-        "task.fileIndex=fileIndex;",
-    ]
-    for s in shapes:
-        if nn.count(s) != 1:
-            raise ExtractFail(where, f"file-count arithmetic changed: `{s}` not found exactly once")
-    res["countShapes"] = shapes
+    toks, _ = canon_params(f, [("module", "WasmModule", 1), ("moduleName", "char", 1), ("headerName", "char", 1), ("functionIDs", "WasmFunctionIDs", 0),
+                               ("filePrefix", "char", 0), ("options", "WasmCWriteModuleOptions", 0)], where)
+    nn = norm(toks)
+    r = {}
+
+    def once(pat, what):
+        ms = list(re.finditer(pat, nn))
+        if len(ms) != 1:
+            raise ExtractFail(where, f"file-count arithmetic changed: `{what}` not found exactly once")
+        r.update(ms[0].groupdict())
+    once(rf"(?P<task>{ID})\.fileIndex=(?P<fi>{ID});", "task.fileIndex = fileIndex")
+    task, fi = re.escape(r["task"]), re.escape(r["fi"])
+    once(rf"{task}\.filePrefix=filePrefix;", "task.filePrefix = filePrefix")
+    once(rf"for\(;{fi}<(?P<n>{ID});(?:{fi}\+\+|\+\+{fi}|{fi}\+=1)\)\{{", "for (; fileIndex < fileCount; fileIndex++)")
+    n_ = re.escape(r["n"])
+    once(rf"(?<![\w.>]){n_}=1\+\((?P<fc>{ID})-1\)/(?P<fpf>{ID});", "fileCount = 1 + (functionCount - 1) / functionsPerFile")
+    fc, fpf = re.escape(r["fc"]), re.escape(r["fpf"])
+    shapes = [(rf"U32{fi}=0;", "U32 fileIndex = 0"),
+              (rf"constsize_t{fc}=functionIDs\.length;", "const size_t functionCount = functionIDs.length"),
+              (rf"U32{fpf}=options\.functionsPerFile;", "U32 functionsPerFile = options.functionsPerFile"),
+              (rf"if\({fc}==0\)\{{returntrue;\}}", "if (functionCount == 0) return true"),
+              (rf"if\({fpf}==0\)\{{{fpf}=UINT32_MAX;\}}", "if (functionsPerFile == 0) functionsPerFile = UINT32_MAX")]
+    for pat, what in shapes:
+        once(pat, what)
+    for v, what in ((r["fi"], "fileIndex"), (r["fc"], "functionCount"), (r["fpf"], "functionsPerFile"), (r["n"], "fileCount")):
+        writes = count_writes(toks, v)
+        allowed = {"fileIndex": 2, "functionCount": 1, "functionsPerFile": 2, "fileCount": 2}[what]
+        # fileIndex: declaration + loop step; functionCount: declaration; functionsPerFile: declaration + the 0 -> UINT32_MAX default;
+        # fileCount: declaration (= 0) + the formula
+        if writes > allowed:
+            raise ExtractFail(where, f"file-count arithmetic changed: `{what}` is assigned {writes} times")
+    res["countShapes"] = [w for _, w in shapes]
     th = funcs.get("wasmCImplementationWriterThread")
     if th is None:
         raise ExtractFail(W, "wasmCImplementationWriterThread not found")
+    twhere = f"{W}:{th.line}"
+    if count_calls(th.body_toks, "wasmCWriteImplementationFile") != 1:
+        raise ExtractFail(twhere, "writer thread does not call wasmCWriteImplementationFile exactly once")
+    targs, _ = find_call(th.body_toks, "wasmCWriteImplementationFile", twhere)
     tn = norm(th.body_toks)
-    for s in ("constcharfilePrefix=task->filePrefix;", "constU32fileIndex=task->fileIndex;"):
-        if s not in tn:
-            raise ExtractFail(f"{W}:{th.line}", f"writer thread no longer forwards `{s}`")
-    m = re.search(r"wasmCWriteImplementationFile\(module,moduleName,headerName,debugLines,filePrefix,fileIndex,", tn)
-    if not m:
-        raise ExtractFail(f"{W}:{th.line}", "writer thread does not pass (filePrefix, fileIndex) on")
+
+    def task_field(arg, field):
+        """the task object T when the argument denotes T->field (directly or through a const temporary)"""
+        a = norm(arg)
+        m = re.fullmatch(rf"({ID})->{field}", a)
+        if m:
+            return m.group(1)
+        if re.fullmatch(ID, a):
+            ms = re.findall(rf"const\w+{re.escape(a)}=({ID})->{field};", tn)
+            if len(ms) == 1 and count_writes(th.body_toks, a) == 1:
+                return ms[0]
+        raise ExtractFail(twhere, f"writer thread no longer forwards `task->{field}`")
+    if len(targs) != 12 or task_field(targs[4], "filePrefix") != task_field(targs[5], "fileIndex"):
+        raise ExtractFail(twhere, "writer thread does not pass (filePrefix, fileIndex) on")
     # --- wasmCWriteModule: names
     f = funcs["wasmCWriteModule"]
     where = f"{W}:{f.line}"
-    nn = norm(f.body_toks)
-    # outputName := basename(copy of outputPath) — overlapping strcpy (pinned tree) or memmove
-    m = re.match(r"^charoutputName\[(\w+)\];charheaderName\[(\w+)\];constchar\*outputPath=options\.outputPath;"
-                 r"(?:constchar\*outputBaseName=NULL;)?"
-                 r"strcpy\(outputName,outputPath\);"
-                 r"(?:strcpy\(outputName,basename\(outputName\)\);"
-                 r"|outputBaseName=basename\(outputName\);memmove\(outputName,outputBaseName,strlen\(outputBaseName\)\+1\);)"
-                 r"strcpy\(headerName,outputName\);"
-                 r"\{char\*headerExt=strrchr\(headerName,('(?:[^'\\]|\\.)')\);"
-                 r"if\(headerExt==NULL\)\{headerExt=headerName\+strlen\(headerName\);\}"
-                 r"strcpy\(headerExt,(\"[^\"]*\")\);\}", nn)
+    toks, _ = canon_params(f, [("module", "WasmModule", 1), ("moduleName", "char", 1), ("options", "WasmCWriteModuleOptions", 0),
+                               ("staticFunctionIDs", "WasmFunctionIDs", 0), ("dynamicFunctionIDs", "WasmFunctionIDs", 0)], where)
+    nn = norm(toks)
+    # outputName := basename(copy of outputPath) — overlapping strcpy (pinned tree) or memmove; the locals are bound by back-reference
+    m = re.match(rf"^char(?P<on>{ID})\[(?P<s1>\w+)\];char(?P<hn>{ID})\[(?P<s2>\w+)\];constchar\*(?P<op>{ID})=options\.outputPath;"
+                 rf"(?:constchar\*(?P<ob>{ID})=NULL;)?"
+                 r"strcpy\((?P=on),(?P=op)\);"
+                 r"(?:strcpy\((?P=on),basename\((?P=on)\)\);"
+                 r"|(?P=ob)=basename\((?P=on)\);memmove\((?P=on),(?P=ob),strlen\((?P=ob)\)\+1\);)"
+                 r"strcpy\((?P=hn),(?P=on)\);"
+                 rf"\{{char\*(?P<he>{ID})=strrchr\((?P=hn),(?P<dot>'(?:[^'\\]|\\.)')\);"
+                 r"if\((?P=he)==NULL\)\{(?P=he)=(?P=hn)\+strlen\((?P=hn)\);\}"
+                 r"strcpy\((?P=he),(?P<suffix>\"[^\"]*\")\);\}", nn)
     if not m:
         raise ExtractFail(where, "output/header name computation has unexpected shape")
-    res["nameBufs"] = (m.group(1), m.group(2))
-    res["headerExtChar"] = chr_value(m.group(3), where)
-    res["headerSuffix"] = c_string(m.group(4), where)
+    res["nameBufs"] = (m.group("s1"), m.group("s2"))
+    res["headerExtChar"] = chr_value(m.group("dot"), where)
+    res["headerSuffix"] = c_string(m.group("suffix"), where)
+    on, hn = re.escape(m.group("on")), re.escape(m.group("hn"))
     rest = nn[m.end():]
-    m = re.match(r"^\{if\(!\(wasmCWriteModuleHeader\(module,moduleName,headerName,[^;{}]*?\)\)\)\{returnfalse;\};\}"
-                 r"\{if\(!\(wasmCWriteModuleImplementation\(module,moduleName,outputName,headerName,[^;{}]*?\)\)\)\{returnfalse;\};\}"
+    m = re.match(rf"^\{{if\(!\(wasmCWriteModuleHeader\(module,moduleName,{hn},[^;{{}}]*?\)\)\)\{{returnfalse;\}};\}}"
+                 rf"\{{if\(!\(wasmCWriteModuleImplementation\(module,moduleName,{on},{hn},[^;{{}}]*?\)\)\)\{{returnfalse;\}};\}}"
                  r"returntrue;$", rest)
     if not m:
         raise ExtractFail(where, "wasmCWriteModule no longer writes header(headerName) then implementation(outputName)")
@@ -809,6 +1289,28 @@ def flat_toks(stmts):
         elif s[0] == "switch":
             out += s[1] + s[2]
     return out
+
+
+def site_arg(f, arg, where):
+    """first argument of a file-system call, described independently of how locals / parameters are NAMED: a parameter by its
+    position, a local by what it is (a constant string by its value), anything else by its source text"""
+    if len(arg) == 1 and arg[0].kind == "id":
+        n = arg[0].text
+        try:
+            ps = cs.param_names(f)
+        except ExtractFail:
+            ps = []
+        if n in ps:
+            return f"<parameter {ps.index(n)}>"
+        toks = f.body_toks
+        decl = [i for i, t in enumerate(toks) if t.text == n and 0 < i < len(toks) - 1 and (toks[i - 1].kind == "id" or toks[i - 1].text == "*")
+                and toks[i - 1].text not in ("return", "else", "goto", "sizeof") and toks[i + 1].text in ("=", ";", "[")]
+        if decl:
+            try:
+                return string_constant(toks, arg, where)
+            except ExtractFail:
+                return "<local buffer>" if toks[decl[0] + 1].text == "[" else "<local>"
+    return norm(arg) if arg else ""
 
 
 def extract_sites(repo):
@@ -833,7 +1335,7 @@ def extract_sites(repo):
                         if len(args) != 2 or args[1][0].kind != "str":
                             raise ExtractFail(f"{fn}:{t.line}", "fopen with a non-literal mode")
                         mode = c_string(args[1][0].text, f"{fn}:{t.line}").decode()
-                    sites.append((fn, name, t.text, norm(args[0]) if args and args[0] else "", mode))
+                    sites.append((fn, name, t.text, site_arg(f, args[0] if args else [], f"{fn}:{t.line}"), mode))
     # the non-libgen / non-glob configurations must not add sites either (other than the Win32 ones)
     return sites
 
@@ -862,7 +1364,7 @@ def generate(repo):
     if len(m) != 1:
         raise ExtractFail("c.h", "W2C2_IMPL_FILENAME_LENGTH is not defined exactly once as an integer literal")
     consts = {"W2C2_IMPL_FILENAME_LENGTH": int(m[0])}
-    glob_pat, glob_flags, steps = extract_clean(repo, consts)
+    glob_pat, glob_flags, steps, flag_carried = extract_clean(repo, consts)
     mn = extract_main(repo)
     cc = extract_c(repo, consts)
     read_mode = extract_readfile(repo)
@@ -943,6 +1445,10 @@ def generate(repo):
     A("def cleanSteps : List CleanStep := [")
     A(",\n".join("  " + s for s in steps))
     A("]")
+    A("/-- the flag through which the digit scan reports (`allDigits`), a variable that outlives one directory entry:")
+    A("    `none` = the loop body sets it to `true` before the scan of EVERY entry; `some v` = it is only initialised (to `v`) at")
+    A("    its declaration and carried over from one entry to the next -/")
+    A("def cleanScanFlagCarried : Option Bool := " + ("none" if flag_carried is None else f"some {'true' if flag_carried else 'false'}"))
     A("def cleanAction : String := \"remove\"")
     A("def mainSteps : List MainStep := [" + ", ".join("." + s for s in mn["mainSteps"]) + "]")
     A("def optStrings : List String := [" + ", ".join(cfront.lean_str(s) for s in mn["optStrings"]) + "]")
